@@ -110,6 +110,19 @@ def gen(rng, i, quick):
                 ops.append({"op": "deliver", "to": m, "msg": f"c{c}", "observe": m})
                 wops.append(f"WDeliver {NAMES3.index(m)} {c}")
             meta.append(len(ops) - 1)
+    # after the last round (which may have been a re-init): everybody tries to build once more, through
+    # the ordinary and through the detached API; a group that accepted a re-init builds nothing any more
+    for m in rng.shuffle(NAMES3):
+        for det in rng.shuffle([False, True]):
+            cid += 1
+            ops.append({"op": "opts", "who": m, "path_required": True, "encrypt_controls": enc})
+            ops.append({"op": "commit", "who": m, "id": f"c{cid}", "detached": det, "observe": m})
+            wops.append(f"WBuild {NAMES3.index(m)} {cid} {'true' if det else 'false'} false true")
+            meta.append(len(ops) - 1)
+            if not det:
+                ops.append({"op": "clear", "who": m, "observe": m})
+                wops.append(f"WClear {NAMES3.index(m)}")
+                meta.append(len(ops) - 1)
     ops.append({"op": "observe", "who": "A", "observe": "all"})
     return {"name": f"c11-{i}", "suite": 1, "members": members, "ops": ops}, wops, meta
 
